@@ -161,8 +161,6 @@ class C08(Suite):
     imports = "From RV Require Import Modifiers.Model."
     case_ty = "case"
     obs_ty = "obs"
-    kf = "kf"
-    kf_ids = {1: "F-C08a", 2: "F-C08b", 3: "F-C08c", 4: "F-C08d", 5: "F-C08e"}
     corr = ("evaluate.evalAggregateJoin/evalOrderBy/evalProject/evalDistinct/evalSlice, aggregates.Aggregator and "
             "the seven accumulators, evalutils._val, algebra.translate/translateAggregates (through the query text)")
     quick_n = 900
@@ -508,8 +506,6 @@ class C08Promo(Suite):
     model = "pmodel"
     oeq = "pobs_eqb"
     spec = "pspec"
-    kf = "pkf"
-    kf_ids = {1: "F-C08g"}
     corr = "aggregates.Sum/Average (datatype bookkeeping, type_safe_numbers), datatypes.type_promotion/_typePromotionMap"
     quick_n = 300
     thorough_n = 6000
